@@ -1,0 +1,24 @@
+//go:build verif
+
+package verifhooks
+
+import (
+	"github.com/atlassian/gostatsd"
+	"github.com/atlassian/gostatsd/internal/lexer"
+	"github.com/atlassian/gostatsd/internal/pool"
+)
+
+// LineLexer is one long-lived internal/lexer.Lexer, reused line after line the way DatagramParser does.
+type LineLexer struct {
+	l lexer.Lexer
+}
+
+// NewLineLexer returns a lexer with its own metric pool.
+func NewLineLexer() *LineLexer {
+	return &LineLexer{l: lexer.Lexer{MetricPool: pool.NewMetricPool(0)}}
+}
+
+// Lex runs the lexer on one line (which it may rewrite in place).
+func (x *LineLexer) Lex(line []byte, namespace string) (*gostatsd.Metric, *gostatsd.Event, error) {
+	return x.l.Run(line, namespace)
+}
